@@ -91,6 +91,40 @@ def handle : Handler := fun j => do
       let deps ← (← jarr j "deps").mapM depOfJson
       pure (Json.mkObj [("deps", Json.arr ((remapDeps m (← jstr j "flavor") deps).map depToJson).toArray),
                         ("dump", dumpTable m.map)])
+  | "server" =>
+    -- {files: [[tag, text]..], reqs: [{op: list|info|tagsfor, tag, flavor|null, product, version}], byTagOnly}
+    let files ← (← jarr j "files").mapM fun f => do
+      match (← f.getArr?).toList with
+      | [t, x] => pure (Str.ofString (← t.getStr?), Str.ofString (← x.getStr?))
+      | _ => throw "file: [tag, text]"
+    let byTag ← jbool j "byTagOnly"
+    let mut cache : TagCache := []
+    let mut out : Array Json := #[]
+    for rq in (← jarr j "reqs") do
+      let k ← (← rq.getObjVal? "op").getStr?
+      let tag ← jstr rq "tag"
+      let fl ← jstrOpt rq "flavor"
+      let prod : Str := (jstr rq "product").toOption.getD []
+      let req := if k == "list" then Req.list tag fl else Req.info tag fl prod
+      let (a, c') := serve1 byTag files cache req
+      cache := c'
+      let errJ (e : ServeErr) : Json := match e with
+        | .notFound => Json.mkObj [("error", "notfound")]
+        | .read e => Json.mkObj [("error", errName e)]
+      let ver : Str := (jstr rq "version").toOption.getD []
+      let aj : Json := match a with
+        | .err e => errJ e
+        | .products l => Json.mkObj [("products", Json.arr (l.map ofStrs).toArray)]
+        | .info i =>
+          if k == "tagsfor" then
+            -- getTagNamesFor(product, version, flavor, tags=[tag]): the tag iff the listed version is that version
+            let hit := match i with
+              | some (_ :: _ :: v :: _) => v == ver
+              | _ => false
+            Json.mkObj [("tags", Json.arr (if hit then #[ofStr tag] else #[]))]
+          else Json.mkObj [("info", match i with | none => Json.null | some l => ofStrs l)]
+      out := out.push aj
+    pure (Json.mkObj [("answers", Json.arr out)])
   | _ => throw s!"unknown op {op}"
 
 end EupsModel.Drv.C18
